@@ -30,6 +30,7 @@
 #include <stdlib.h>
 #include <stdio.h>
 #include <string.h>
+#include <errno.h>
 #include <stdint.h>
 #include <stdbool.h>
 #include <sys/types.h>
@@ -339,6 +340,10 @@ int main (int argc, char *argv[]) {
         if(held > in_size - start)
             held = in_size - start;
         write_data(zck, data + start, in_size - (start + held));
+    }
+    if(in_size < 0) {
+        LOG_ERROR("Error reading %s: %s\n", arguments.args[0], strerror(errno));
+        exit(1);
     }
     /* A partial match at the end of the input is ordinary data */
     if(matched > 0)
